@@ -225,6 +225,7 @@ func e2eOne(c *Ctx, prop string, idx int, seed int64, sp *e2eSpec, dir string) {
 	oracleTiling(o, v)
 	oracleCrashImage(o, v)
 	oracleNoDuplicateData(o, v)
+	oracleResumedPrev(o, v)
 	for cls, n := range o.imageClasses {
 		res.Count("crash_image_class_"+cls, int64(n))
 	}
@@ -345,6 +346,19 @@ func runCrashEnum(c *Ctx, prop string) {
 			sp0.Files = []wsFile{{Name: "a.000.dat", Size: 3*sp0.Conf.PayloadSize + 17}}
 		case 2:
 			sp0.Files = genFiles(srng, 4, sp0.Conf.PayloadSize/3+1)
+			if prop == "C07" {
+				// the first payload is damaged in transit: its files fail validation at the
+				// receiver; a sender that dies after sending them and before learning that
+				// is told 'failed' by its start-up poll and resumes them (with the
+				// predecessor they had announced)
+				sp0.Files = nil
+				for k := 0; k < 4; k++ { // one group: each file announces the one before it
+					sp0.Files = append(sp0.Files, wsFile{Name: fmt.Sprintf("a.%03d.dat", k), Size: 1 + srng.Int63n(sp0.Conf.PayloadSize/3+1)})
+				}
+				sp0.Faults = []fault{{Kind: fCorrupt, Nth: 1, K: 1 + srng.Intn(2)}}
+				sp0.Conf.Tags[0].Order = sts.OrderFIFO
+				sp0.Conf.Threads = 1
+			}
 		case 3:
 			sp0.Conf.Rename = true
 		case 4:
@@ -366,7 +380,7 @@ func runCrashEnum(c *Ctx, prop string) {
 				sp0.QuietMutations = nil
 			}
 		}
-		if prop == "C07" && srng.Intn(2) == 0 {
+		if prop == "C07" && srng.Intn(2) == 0 && len(sp0.Faults) == 0 {
 			// make sure payloads are cut mid-way so that partial receptions exist at the crash
 			sp0.Faults = []fault{{Kind: fCutMid, Nth: 1 + srng.Intn(3), K: srng.Intn(2)}}
 		}
